@@ -126,6 +126,10 @@ class Repeat(addons.AddonMainTask, block.SBlock):
                     data = await asyncio.wait_for(self._queue.get(), self._interval)
                     repeat = 0
                 except asyncio.TimeoutError:
+                    if not self._queue.empty():
+                        # a new event has arrived at the same moment and was
+                        # forwarded already, do not repeat the old one after it
+                        continue
                     repeat += 1
 
             if repeat > 0:  # skip the original event
